@@ -27,7 +27,7 @@
         the Go map is unspecified ([LRLock order]).
       - updateBest: p.mu.Lock(); MasterHead() of every connection; the selection rule
         (Model/Pool.v) on those heads and on IsOK()/AverageRoundTrip(), which are inputs
-        from the network ([LUpdDone obs]); p.mu.Unlock().  The heads are read one by one
+        from the network ([LUpdDone obs old]); p.mu.Unlock().  The heads are read one by one
         in the code; the model reads them at once (the comparison is monotone in a
         connection's head, Proofs/PoolP.v current_go_mono).
 
@@ -167,7 +167,7 @@ Inductive label :=
 | LRUnlock                     (* Run: loop finished, p.mu.RUnlock() *)
 | LTick                        (* Run: ticker fired, updateBest: p.mu.Lock() announced *)
 | LUpdLock                     (* Run: the write lock is acquired *)
-| LUpdDone (obs : list (bool * Z))
+| LUpdDone (obs : list (bool * Z)) (old : list N)
                                (* Run: heads read, IsOK()/AverageRoundTrip() observed as [obs],
                                   bestConn := selection; p.mu.Unlock() *)
 | LSubWant (w : nat)           (* waiter: p.mu.Lock() in subscribe announced *)
@@ -229,6 +229,12 @@ Fixpoint coalesce (u : msg) (rest : list msg) : msg :=
   | [] => u
   | n :: t => coalesce (if (snd u <=? snd n)%N then n else u) t
   end.
+
+(** updateBest reads every head twice (maximum, then the find functions) holding only p.mu; SetMasterHead
+    needs only c.mu, so a head may rise in between.  [old] is what the first loop read: any
+    heads not above the current ones (missing entries: the current head). *)
+Definition first_read (heads : nat -> N) (old : list N) : nat -> N :=
+  fun i => N.min (nth i old (heads i)) (heads i).
 
 Section Step.
   Variable strat : strategy.      (* p.strategy *)
@@ -310,11 +316,12 @@ Section Step.
                     else None
         | _ => None
         end
-    | LUpdDone obs =>
+    | LUpdDone obs old =>
         match rpc s with
         | RUpd =>
             if is_writer s ARun
-            then Some (set_rpc (set_writer (set_best s (update_best strat (mk_conns nconns (head s) obs) (best s)))
+            then Some (set_rpc (set_writer (set_best s (update_best2 strat (mk_conns nconns (first_read (head s) old) obs)
+                                                                      (mk_conns nconns (head s) obs) (best s)))
                                            None) RIdle)
             else None
         | _ => None
@@ -407,7 +414,7 @@ Definition init_state (heads : nat -> N) (b : option nat) : state :=
 Definition holder_can_step (strat : strategy) (reent coal : bool) (nconns : nat) (tgt : nat -> N) (s : state) : Prop :=
   match writer s with
   | Some (AW w) => step strat reent coal nconns tgt s (LSubBody w) <> None
-  | Some ARun => forall obs, step strat reent coal nconns tgt s (LUpdDone obs) <> None
+  | Some ARun => forall obs old, step strat reent coal nconns tgt s (LUpdDone obs old) <> None
   | None => readers s = 0 \/ step strat reent coal nconns tgt s LSend <> None \/
             step strat reent coal nconns tgt s LRUnlock <> None \/
             exists o, step strat reent coal nconns tgt s (LRInner o) <> None
@@ -418,7 +425,7 @@ Definition holder_can_step (strat : strategy) (reent coal : bool) (nconns : nat)
 Definition release (s : state) : list label :=
   match writer s with
   | Some (AW w) => [LSubBody w]
-  | Some ARun => [LUpdDone []]
+  | Some ARun => [LUpdDone [] []]
   | None => match rpc s with
             | RNotify _ _ rem => repeat LSend (length rem) ++ [LRUnlock]
             | _ => []
@@ -429,7 +436,7 @@ Definition release (s : state) : list label :=
     finishes its critical section *)
 Definition serve (s : state) : list label :=
   match wreq s with
-  | Some ARun => [LUpdLock; LUpdDone []]
+  | Some ARun => [LUpdLock; LUpdDone [] []]
   | Some (AW w) => match wpc s w with
                    | WSubW => [LSubLock w; LSubBody w]
                    | _ => [LUnsub w]
@@ -441,7 +448,7 @@ Definition serve (s : state) : list label :=
     (no new head, no new caller, no timeout, no new lock request) *)
 Definition internal (l : label) : bool :=
   match l with
-  | LSend | LRUnlock | LUpdDone _ | LSubBody _ | LRLock _ | LTake
+  | LSend | LRUnlock | LUpdDone _ _ | LSubBody _ | LRLock _ | LTake
   | LUpdLock | LSubLock _ | LUnsub _ => true
   | _ => false
   end.
